@@ -16,6 +16,7 @@ package main
 import (
 	"bytes"
 	"context"
+	"crypto/sha256"
 	"encoding/base64"
 	"encoding/json"
 	"fmt"
@@ -27,6 +28,7 @@ import (
 	"path/filepath"
 	"regexp"
 	"sort"
+	"strconv"
 	"strings"
 	"time"
 
@@ -47,6 +49,7 @@ type config struct {
 	WorkRel       string `json:"work_rel"`       // its path relative to the module root
 	Seed          int64  `json:"seed"`           //
 	MaxCases      int    `json:"max_cases"`      // sample size for transitions the model calls faithful
+	MaxBoundary   int    `json:"max_boundary"`   // sample size for edits that move static text across Go code (0 = all)
 	MaxUnfaithful int    `json:"max_unfaithful"` // sample size for transitions the coded-rule model calls unfaithful
 	PkgSize       int    `json:"pkg_size"`       //
 	Corrupt       bool   `json:"corrupt"`        // binding self-test: corrupt one expected rendering
@@ -67,6 +70,10 @@ type edge struct {
 	NLits int      `json:"nlits"`
 	Exprs []string `json:"exprs"`
 	Sig   string   `json:"sig"`
+	// the emitting model's own decisions and the edit's nature
+	Go       bool `json:"go"`       // GoUpdated under the emission's HasChanged rule
+	TxtUpd   bool `json:"txtupd"`   // the text file is rewritten (hash as coded)
+	Boundary bool `json:"boundary"` // same concatenated static text, different literal boundaries
 }
 
 type textCase struct {
@@ -148,6 +155,9 @@ func classText(cls string, n int) string {
 }
 
 // source renders the template body of an abstract template.
+// batchSeed is the run's seed (VERIF_SEED): it selects the static texts.
+var batchSeed int64
+
 func source(t *tmpl, rng *rand.Rand) string {
 	var sb strings.Builder
 	sb.WriteString(fmt.Sprintf("package p%02d\n\n", t.Pkg))
@@ -176,9 +186,18 @@ func source(t *tmpl, rng *rand.Rand) string {
 		sb.WriteString("\n}\n")
 		return sb.String()
 	}
-	// two different snippets per template for the tokens a and b
-	ia := rng.Intn(len(snippets))
-	ib := (ia + 1 + rng.Intn(len(snippets)-1)) % len(snippets)
+	// two different snippets for the tokens a and b. The choice depends (besides the seed) only on the sequence of the
+	// static-text items, so that two versions of a template that differ by moving static text across Go code, or in
+	// their Go code only, are concretised with the SAME texts (the model's "same text" must be the same bytes).
+	lits := ""
+	for _, it := range t.Items {
+		if it.K == "lit" {
+			lits += it.E
+		}
+	}
+	hs := sha256.Sum256([]byte(fmt.Sprintf("%d/%s", batchSeed, lits)))
+	ia := int(hs[0]) % len(snippets)
+	ib := (ia + 1 + int(hs[1])%(len(snippets)-1)) % len(snippets)
 	for _, it := range t.Items {
 		switch it.K {
 		case "lit":
@@ -321,6 +340,27 @@ func handle(h *generatecmd.FSEventHandler, path string, src string, step int) (g
 	return h.HandleEvent(context.Background(), fsnotify.Event{Name: path, Op: fsnotify.Write})
 }
 
+// literalFile is what the development text file must contain for a template source: the literals of the real generator.
+func literalFile(src string) string {
+	tf, err := parser.ParseString(src)
+	if err != nil {
+		vhlib.Fatal("%v", err)
+	}
+	out, err := generator.Generate(tf, new(bytes.Buffer))
+	if err != nil {
+		vhlib.Fatal("%v", err)
+	}
+	return strings.Join(out.Literals, "\n")
+}
+
+func readTextFile(templPath string) string {
+	b, err := os.ReadFile(templruntime.GetDevModeTextFileName(templPath))
+	if err != nil {
+		return "<missing: " + err.Error() + ">"
+	}
+	return string(b)
+}
+
 const driverTemplate = `// generated by the c16 harness
 package main
 
@@ -330,7 +370,9 @@ import (
 	"encoding/base64"
 	"fmt"
 	"os"
+	"strconv"
 	"strings"
+	"time"
 
 	"github.com/a-h/templ"
 %s
@@ -343,9 +385,16 @@ var reg = map[string]tf{
 }
 
 func main() {
-	idb, err := os.ReadFile(os.Args[1])
-	if err != nil {
-		panic(err)
+	stream := len(os.Args) > 4 && os.Args[1] == "-stream"
+	var idb []byte
+	var err error
+	if stream {
+		idb = []byte(os.Args[2])
+	} else {
+		idb, err = os.ReadFile(os.Args[1])
+		if err != nil {
+			panic(err)
+		}
 	}
 	x := %q
 	y := "Y<y>"
@@ -355,6 +404,25 @@ func main() {
 	c := templ.Raw("<c/>")
 	kids := templ.Raw("<kid/>")
 	xs := []string{"1", "2"}
+	if stream {
+		// render one template continuously: <elapsed ms> <rendering> per line, for <duration ms> every <interval ms>
+		dur, _ := strconv.Atoi(os.Args[3])
+		gap, _ := strconv.Atoi(os.Args[4])
+		f := reg[os.Args[2]]
+		start := time.Now()
+		for time.Since(start) < time.Duration(dur)*time.Millisecond {
+			var buf bytes.Buffer
+			ctx := templ.WithChildren(context.Background(), kids)
+			err := f(x, y, u, h, true, at, c, xs).Render(ctx, &buf)
+			es := ""
+			if err != nil {
+				es = strings.ReplaceAll(strings.ReplaceAll(err.Error(), "\n", " "), "\t", " ")
+			}
+			fmt.Printf("%%d\t%%s\t%%s\n", time.Since(start).Milliseconds(), base64.StdEncoding.EncodeToString(buf.Bytes()), es)
+			time.Sleep(time.Duration(gap) * time.Millisecond)
+		}
+		return
+	}
 	var out strings.Builder
 	for _, id := range strings.Split(string(idb), "\n") {
 		if id == "" {
@@ -402,6 +470,7 @@ func main() {
 	}
 	os.Unsetenv("TEMPL_DEV_MODE")
 	rng := rand.New(rand.NewSource(cfg.Seed))
+	batchSeed = cfg.Seed
 
 	// ---- load the model's transitions ----------------------------------------------------------
 	var edges []edge
@@ -416,14 +485,18 @@ func main() {
 		vhlib.Fatal("%v", err)
 	}
 	emitted := len(edges)
-	// three pools: transitions the coded-rule model calls unfaithful, faithful transitions without rebuild
-	// (these exercise the development-mode rendering) and transitions with a rebuild (decision only)
-	var keep, quiet, rebuild []edge
+	// four pools, by the emitting model's own decision: edits that only move static text across Go code (always
+	// kept: the text file must be rewritten although its concatenated text is unchanged), transitions the model calls
+	// unfaithful (only when the emission uses a defective HasChanged rule), faithful transitions without rebuild (these
+	// exercise the development-mode rendering) and transitions with a rebuild (decision only)
+	var boundary, keep, quiet, rebuild []edge
 	for _, e := range edges {
 		switch {
-		case e.Sig != "faithful" && !e.Coded:
+		case e.Boundary && !e.Go:
+			boundary = append(boundary, e)
+		case e.Sig != "faithful" && !e.Go:
 			keep = append(keep, e)
-		case !e.Coded:
+		case !e.Go:
 			quiet = append(quiet, e)
 		default:
 			rebuild = append(rebuild, e)
@@ -437,12 +510,13 @@ func main() {
 		return es
 	}
 	keep = sample(keep, cfg.MaxUnfaithful)
+	boundary = sample(boundary, cfg.MaxBoundary)
 	if cfg.MaxCases > 0 {
 		quiet = sample(quiet, cfg.MaxCases*2/3)
 		rebuild = sample(rebuild, cfg.MaxCases/3)
 	}
-	pools := map[string]int{"model_unfaithful": len(keep), "model_faithful_no_rebuild": len(quiet), "model_rebuild": len(rebuild)}
-	edges = append(append(keep, quiet...), rebuild...)
+	pools := map[string]int{"text_moved_across_go_code": len(boundary), "model_unfaithful": len(keep), "model_faithful_no_rebuild": len(quiet), "model_rebuild": len(rebuild)}
+	edges = append(append(append(boundary, keep...), quiet...), rebuild...)
 
 	var texts []textCase
 	if cfg.Texts != "" {
@@ -694,6 +768,7 @@ func main() {
 		c, s  *tmpl
 		p     *tmpl
 		round int
+		stale string // the text file does not hold the literals of the last generation (what it holds instead)
 	}
 	perC := map[string]int{}
 	var cases []*tcase
@@ -721,6 +796,7 @@ func main() {
 	}
 	replayed, noRebuild, rebuilds, premiseFailed, manifest, notManifest := 0, 0, 0, 0, 0, 0
 	realVsCoded, realVsHash := 0, 0
+	txtChecked, staleTxt, txtDecisionDrift, boundaryReplayed := 0, 0, 0, 0
 	skippedBroken := 0
 	bySig := map[string]int{}
 	manifestBySig := map[string]int{}
@@ -767,6 +843,20 @@ func main() {
 				vhlib.Drift("the real HasChanged decision differs from the model's rule",
 					map[string]any{"previous_template": at(c.p, c.c), "saved_template": at(c.s, c.c), "real_GoUpdated": rs.GoUpdated, "model_coded": c.e.Coded, "model_codehash": c.e.Hash})
 			}
+			// the text file must hold the literals of this generation (eventhandler: TextUpdated / UpsertHash)
+			txtChecked++
+			if wantTxt, gotTxt := literalFile(at(c.s, c.c)), readTextFile(c.c.Path); gotTxt != wantTxt {
+				c.stale = gotTxt
+				staleTxt++
+				if rs.TextUpdated == c.e.TxtUpd {
+					vhlib.Fatal("text file of %s is stale although TextUpdated=%v as the model predicts", c.c.Name, rs.TextUpdated)
+				}
+			} else if rs.TextUpdated != c.e.TxtUpd {
+				txtDecisionDrift++
+			}
+			if c.e.Boundary {
+				boundaryReplayed++
+			}
 			if rs.GoUpdated {
 				rebuilds++
 				continue
@@ -796,7 +886,14 @@ func main() {
 				manifest++
 				manifestBySig[c.e.Sig]++
 				sig := c.e.Sig
-				if c.e.Coded {
+				if c.stale != "" {
+					// root cause: the handler decided not to rewrite the text file although the literals changed
+					sig = "TextFile.NotRewritten"
+					if c.e.Boundary {
+						sig = "TextFile.NotRewritten.TextMovedAcrossGoCode"
+					}
+					rep["text_file_holds"] = c.stale
+				} else if c.e.Coded {
 					// HasChanged as coded at the pinned commit asks for a rebuild here; the code under test did not
 					sig = "HasChanged.WeakerThanCoded"
 				} else if sig == "faithful" {
@@ -814,6 +911,113 @@ func main() {
 			}
 		}
 	}
+	// ---- continuous rendering across a text-only edit (runtime/watchmode.go: the cache of the text file) -------------
+	// The program renders a template every streamGap ms (no pause of 100 ms, the cache's own time constant) for
+	// streamDur ms; in the middle the real handler processes a text-only edit. The new static text must be seen:
+	// every rendering later than streamSettle ms after the edit has to equal the fresh rendering of the saved template.
+	const streamDur, streamGap, streamEditAt, streamSettle = 1500, 10, 400, 500
+	streamRes := map[string]any{"checked": 0, "inconclusive": 0, "bound_ms": streamSettle, "render_every_ms": streamGap}
+	{
+		var picks []*tcase
+		for _, c := range cases {
+			if !c.e.Go && !c.e.Boundary && c.e.Sig == "faithful" && c.c == c.p && c.c.Broken == "" && c.s.Broken == "" && c.c.Fresh != c.s.Fresh && len(picks) < 3 {
+				dup := false
+				for _, q := range picks {
+					dup = dup || q.c == c.c
+				}
+				if !dup {
+					picks = append(picks, c)
+				}
+			}
+		}
+		root := filepath.Join(cfg.Work, "txt-stream")
+		os.MkdirAll(root, 0o755)
+		os.Setenv("TEMPL_DEV_MODE_ROOT", root)
+		h := generatecmd.NewFSEventHandler(logger, cfg.Work, true, []generator.GenerateOpt{}, false, false, generatecmd.FileWriter, false)
+		type proc struct {
+			cmd   *exec.Cmd
+			out   bytes.Buffer
+			start time.Time
+		}
+		var procs []*proc
+		for _, c := range picks {
+			if _, err := handle(h, c.c.Path, at(c.c, c.c), 1); err != nil {
+				vhlib.Fatal("%v", err)
+			}
+		}
+		time.Sleep(150 * time.Millisecond) // the text files are older than the cache's time constant when the programs start
+		for _, c := range picks {
+			p := &proc{cmd: exec.Command(bin, "-stream", c.c.Name, strconv.Itoa(streamDur), strconv.Itoa(streamGap))}
+			for _, kv := range os.Environ() {
+				if !strings.HasPrefix(kv, "TEMPL_DEV_MODE") {
+					p.cmd.Env = append(p.cmd.Env, kv)
+				}
+			}
+			p.cmd.Env = append(p.cmd.Env, "TEMPL_DEV_MODE=true", "TEMPL_DEV_MODE_ROOT="+root)
+			p.cmd.Stdout = &p.out
+			p.start = time.Now()
+			if err := p.cmd.Start(); err != nil {
+				vhlib.Fatal("%v", err)
+			}
+			procs = append(procs, p)
+		}
+		time.Sleep(streamEditAt * time.Millisecond)
+		var editedAt []time.Time
+		for _, c := range picks {
+			rs, err := handle(h, c.c.Path, at(c.s, c.c), 2)
+			if err != nil {
+				vhlib.Fatal("%v", err)
+			}
+			if rs.GoUpdated || !rs.TextUpdated {
+				vhlib.Fatal("stream check: the edit of %s is not text-only for the real handler (%+v)", c.c.Name, rs)
+			}
+			editedAt = append(editedAt, time.Now())
+		}
+		for i, p := range procs {
+			c := picks[i]
+			if err := p.cmd.Wait(); err != nil {
+				vhlib.Fatal("stream program failed: %v", err)
+			}
+			edit := editedAt[i].Sub(p.start).Milliseconds() + 30 // process start-up: elapsed times of the program lag behind
+			sawOld, late, lateStale, maxGap, prevT := false, 0, 0, int64(0), int64(-1)
+			lastOut := ""
+			for _, line := range strings.Split(p.out.String(), "\n") {
+				parts := strings.SplitN(line, "\t", 3)
+				if len(parts) != 3 {
+					continue
+				}
+				t, _ := strconv.ParseInt(parts[0], 10, 64)
+				o := normalise(outcome{Out: parts[1], Err: parts[2]}).String()
+				if prevT >= 0 && t-prevT > maxGap {
+					maxGap = t - prevT
+				}
+				prevT = t
+				if t < edit-60 && o == c.c.Fresh {
+					sawOld = true
+				}
+				if t > edit+streamSettle {
+					late++
+					if o != c.s.Fresh {
+						lateStale++
+						lastOut = o
+					}
+				}
+			}
+			if !sawOld || late < 5 {
+				streamRes["inconclusive"] = streamRes["inconclusive"].(int) + 1
+				continue
+			}
+			streamRes["checked"] = streamRes["checked"].(int) + 1
+			streamRes["max_gap_ms"] = maxGap
+			if lateStale > 0 {
+				fails++
+				vhlib.Fail("DevCache.StaleUnderContinuousRendering", "a program that renders continuously never shows a text-only edit: the development-mode cache does not re-read the text file",
+					map[string]any{"compiled_template": c.c.Src, "saved_template": at(c.s, c.c), "renderings_later_than_ms_after_edit": streamSettle, "stale_renderings": lateStale, "of": late,
+						"max_gap_between_renderings_ms": maxGap, "stale_rendering": decode(outcomeOf(lastOut)), "fresh_rendering": decode(outcomeOf(c.s.Fresh))})
+			}
+		}
+	}
+
 	sigs := []string{}
 	for s := range bySig {
 		sigs = append(sigs, s)
@@ -826,6 +1030,8 @@ func main() {
 		"packages": npkg, "build_seconds": buildSecs, "rounds": maxRound,
 		"no_rebuild_checked": noRebuild, "rebuild_requested": rebuilds, "premise_failed": premiseFailed, "skipped_not_generated": skippedBroken,
 		"generator_drift": drift, "text_file_drift": textDrift,
+		"text_file_checked_after_edit": txtChecked, "text_file_stale_after_edit": staleTxt, "text_updated_decision_drift": txtDecisionDrift,
+		"text_moved_across_go_code_replayed": boundaryReplayed, "stream": streamRes,
 		"real_differs_from_coded_rule": realVsCoded, "real_differs_from_codehash_rule": realVsHash,
 		"no_rebuild_by_model_signature": bySig, "manifest_by_signature": manifestBySig,
 		"unfaithful_manifest": manifest, "unfaithful_not_manifest_in_bytes": notManifest, "fails": fails,
